@@ -229,12 +229,83 @@ def hash_facts(cls: ast.ClassDef, src: str):
     return exact, chars, py2v.src_hash(fn, src)
 
 
+def dedup_filter_facts(cls: ast.ClassDef, src: str, repo: str):
+    """`_add_ctes_to_expression`, collision branch: the duplicated CTE is told apart by a filter `<lit> = <lit>` that is
+    (i) made of a FRESH string (uuid4 hex, or the session's counter name) and (ii) ADDED to the CTE's own WHERE
+    (`.where(..)` without append=False).  The model's [add_uuid] keeps the block and tags it with a fresh token."""
+    fn = None
+    for st in cls.body:
+        if isinstance(st, ast.FunctionDef) and st.name == "_add_ctes_to_expression":
+            fn = st
+    if fn is None:
+        raise Untranslatable("_add_ctes_to_expression not found")
+    assigns = {}
+    for st in ast.walk(fn):
+        if isinstance(st, ast.Assign) and len(st.targets) == 1 and isinstance(st.targets[0], ast.Name):
+            assigns.setdefault(st.targets[0].id, []).append(st.value)
+
+    def resolve(node):
+        seen = set()
+        while isinstance(node, ast.Name) and node.id in assigns and len(assigns[node.id]) == 1 and node.id not in seen:
+            seen.add(node.id)
+            node = assigns[node.id][0]
+        return node
+
+    eqs = [n for n in ast.walk(fn) if isinstance(n, ast.Call) and dotted(n.func) == "exp.EQ"]
+    if len(eqs) != 1 or eqs[0].args or sorted(k.arg for k in eqs[0].keywords) != ["expression", "this"]:
+        raise Untranslatable("_add_ctes_to_expression: expected one exp.EQ(this=.., expression=..)")
+    a, b = (resolve(k.value) for k in eqs[0].keywords)
+    if ast.dump(a) != ast.dump(b):
+        raise Untranslatable("_add_ctes_to_expression: the two sides of the disambiguating filter differ")
+    if not (isinstance(a, ast.Call) and dotted(a.func) == "exp.Literal.string" and len(a.args) == 1 and not a.keywords):
+        raise Untranslatable("_add_ctes_to_expression: the disambiguating filter is not built from exp.Literal.string(..)")
+    src_node = a.args[0]
+    d = dotted(src_node)
+    if d == "self.session._auto_incrementing_name":
+        kind = "counter"
+    elif isinstance(src_node, ast.Attribute) and src_node.attr == "hex" and isinstance(src_node.value, ast.Call) \
+            and dotted(src_node.value.func) in ("uuid.uuid4", "uuid4") and not src_node.value.args:
+        kind = "uuid"
+    else:
+        kind = None          # a constant / anything else: not known to be fresh
+    # the .where(..) call that takes the filter
+    wheres = [n for n in ast.walk(fn) if isinstance(n, ast.Call) and isinstance(n.func, ast.Attribute) and n.func.attr == "where"
+              and n.args and resolve(n.args[0]) is eqs[0]]
+    if len(wheres) != 1:
+        raise Untranslatable("_add_ctes_to_expression: the filter is not handed to exactly one .where(..)")
+    appended = True
+    for kw in wheres[0].keywords:
+        if kw.arg == "append":
+            if not (isinstance(kw.value, ast.Constant) and isinstance(kw.value.value, bool)):
+                raise Untranslatable("_add_ctes_to_expression: append= is not a literal")
+            appended = kw.value.value
+        elif kw.arg not in ("copy", "dialect"):
+            raise Untranslatable(f"_add_ctes_to_expression: .where(.., {kw.arg}=)")
+    # the session's counter names: f"<prefix>{self.incrementing_id}"
+    prefix = None
+    if kind == "counter":
+        stree, _ = py2v.load(os.path.join(repo, "sqlframe/base/session.py"))
+        g = py2v.find_func(stree, "_auto_incrementing_name")
+        fs = [n for n in ast.walk(g) if isinstance(n, ast.JoinedStr)]
+        if len(fs) != 1 or len(fs[0].values) != 2 or not isinstance(fs[0].values[0], ast.Constant) \
+                or not isinstance(fs[0].values[1], ast.FormattedValue) or dotted(fs[0].values[1].value) != "self.incrementing_id":
+            raise Untranslatable("_auto_incrementing_name is not f'<prefix>{self.incrementing_id}'")
+        prefix = fs[0].values[0].value
+        incs = [n for n in ast.walk(g) if isinstance(n, ast.AugAssign) and dotted(n.target) == "self.incrementing_id"
+                and isinstance(n.op, ast.Add) and isinstance(n.value, ast.Constant) and n.value.value == 1]
+        if len(incs) != 1 or not prefix.isalnum():
+            raise Untranslatable("_auto_incrementing_name does not advance its counter by 1 / odd prefix")
+    pattern = {"uuid": "^[0-9a-f]{32}$", "counter": "^" + (prefix or "") + "[0-9]+$", None: "^$"}[kind]
+    return kind is not None, appended, pattern, py2v.src_hash(fn, src)
+
+
 def generate(repo: str):
     tree, src = py2v.load(os.path.join(repo, "sqlframe/base/dataframe.py"))
     cls = py2v.find_class(tree, "BaseDataFrame")
     params, swap, so_hash = set_operation_shape(cls, src)
     flags, hashes = method_flags(cls, params, src)
     h_exact, h_chars, h_hash = hash_facts(cls, src)
+    d_fresh, d_appended, d_pattern, d_hash = dedup_filter_facts(cls, src, repo)
     decos = c01_facts.method_decorators(tree, "BaseDataFrame", "operation")
     kinds = {}
     for m, (_, _, defname) in flags.items():
@@ -251,7 +322,9 @@ def generate(repo: str):
          f"Definition swap : bool := {'true' if swap else 'false'}.",
          "Definition gen_facts : facts := mkFacts flags kind swap.",
          f"Definition hash_text_exact : bool := {'true' if h_exact else 'false'}.",
-         f"Definition hash_name_chars : nat := {h_chars}."]
+         f"Definition hash_name_chars : nat := {h_chars}.",
+         f"Definition dedup_filter_fresh : bool := {'true' if d_fresh else 'false'}.",
+         f"Definition dedup_filter_appended : bool := {'true' if d_appended else 'false'}."]
     facts = [
         {"name": "flags", "from": "dataframe.py: arguments of _set_operation in each method",
          "value": {m: [flags[m][0], flags[m][1]] for m in flags}, "hash": hashes},
@@ -259,6 +332,8 @@ def generate(repo: str):
         {"name": "swap", "from": "dataframe.py: _set_operation klass(this=.., expression=..)", "value": swap, "hash": so_hash},
         {"name": "hash_text_exact / hash_name_chars", "from": "dataframe.py: _create_hash_from_expression",
          "value": [h_exact, h_chars], "hash": h_hash},
+        {"name": "dedup_filter_fresh / dedup_filter_appended", "from": "dataframe.py: _add_ctes_to_expression (collision branch), session.py: _auto_incrementing_name",
+         "value": [d_fresh, d_appended], "literal_pattern": d_pattern, "hash": d_hash},
     ]
     return "\n".join(L) + "\n", facts
 
